@@ -1,7 +1,169 @@
-(* C03 - property theorems (statements only). *)
+(* C03 - Guest memory reads and writes behave like one flat sparse byte array.
+   Statements only; every proof is [exact] of a lemma of Proofs/C03.v.
+
+   Vocabulary: rd M a (Proofs/C03.v) is the flat reading of a guest memory M (one byte list per
+   region): the byte of the region that owns address a, None in a hole.  is_run L a n k: k is the
+   length of the longest run of consecutively mapped addresses starting at a, capped at n (unique:
+   C03_run_unique).  in_range a k x := a <= x < a+k.  count_result k = Ok k, or the
+   invalid-address error when k = 0; exact_result n k = Ok(()) when k = n, PartialBuffer{n,k}
+   otherwise (invalid-address error when k = 0).
+   As in C02 the theorems hold for EVERY implementor relying on the provided methods (arbitrary
+   find_region meeting find_ok under an invariant implying wf_layout_gen: regions may end exactly
+   at 2^64, sit at 0, be in any order), any number and size of regions, any address, any buffer,
+   both build profiles (mode m).  Every "= Val ..." also says: no panic, and the loop fuel
+   (number of regions + 1; + 2 for a short in-memory source) is never exhausted. *)
 From VM Require Import Prelude.MachInt Prelude.Outcome Impl.Address Impl.Guest Spec.C03 Suite.C03 Proofs.C02 Proofs.C03.
 
-Theorem C03_linear_find_contract : forall L a, find_ok L a (find_lin L a).
-Proof. exact find_lin_spec. Qed.
+(* writing a non-empty buffer stores, in order, exactly the first k bytes on the run starting at
+   addr - each byte in the region and offset that owns its address, across region boundaries -,
+   reports k (invalid address iff the first byte is unmapped), and changes nothing else *)
+Theorem C03_write_refines_flat : forall (find : layout -> N -> option nat) (inv : layout -> Prop),
+  (forall L, inv L -> wf_layout_gen L) ->
+  (forall L a, inv L -> a < W64 -> find_ok L a (find L a)) ->
+  forall m M buf addr, inv (shape M) -> lenN buf < W64 -> addr < W64 -> buf <> [] ->
+  exists M' k, gm_write find m M buf addr = Val (M', count_result k) /\
+    is_run (shape M) addr (lenN buf) k /\ shape M' = shape M /\
+    forall x, x < W64 -> rd M' x = if in_range addr k x then nth_error buf (N.to_nat (x - addr)) else rd M x.
+Proof. exact gm_write_lemma. Qed.
 
-Print Assumptions C03_linear_find_contract.
+(* no byte outside [addr, addr + len) changes, whatever the outcome (also for the empty buffer) *)
+Theorem C03_write_frame : forall (find : layout -> N -> option nat) (inv : layout -> Prop),
+  (forall L, inv L -> wf_layout_gen L) ->
+  (forall L a, inv L -> a < W64 -> find_ok L a (find L a)) ->
+  forall m M buf addr, inv (shape M) -> lenN buf < W64 -> addr < W64 ->
+  exists M' r, gm_write find m M buf addr = Val (M', r) /\ shape M' = shape M /\
+    forall x, x < W64 -> ~ (addr <= x < addr + lenN buf) -> rd M' x = rd M x.
+Proof. exact write_frame_lemma. Qed.
+
+(* reading a non-empty buffer delivers, in order, the k flat bytes of the run; the rest of the
+   buffer keeps its contents *)
+Theorem C03_read_refines_flat : forall (find : layout -> N -> option nat) (inv : layout -> Prop),
+  (forall L, inv L -> wf_layout_gen L) ->
+  (forall L a, inv L -> a < W64 -> find_ok L a (find L a)) ->
+  forall m M buf0 addr, inv (shape M) -> lenN buf0 < W64 -> addr < W64 -> buf0 <> [] ->
+  exists b k, gm_read find m M buf0 addr = Val (b, count_result k) /\
+    is_run (shape M) addr (lenN buf0) k /\ length b = length buf0 /\
+    forall j, nth_error b j = if N.of_nat j <? k then rd M (addr + N.of_nat j) else nth_error buf0 j.
+Proof. exact gm_read_lemma. Qed.
+
+Theorem C03_run_unique : forall L a n k1 k2, wf_layout_gen L -> is_run L a n k1 -> is_run L a n k2 -> k1 = k2.
+Proof. exact is_run_unique. Qed.
+
+(* the all-or-error forms succeed exactly when the whole range is mapped, and otherwise report how
+   much was completed *)
+Theorem C03_slice_forms_iff : forall (find : layout -> N -> option nat) (inv : layout -> Prop),
+  (forall L, inv L -> wf_layout_gen L) ->
+  (forall L a, inv L -> a < W64 -> find_ok L a (find L a)) ->
+  forall m M buf addr, inv (shape M) -> lenN buf < W64 -> addr < W64 -> buf <> [] ->
+  (exists M' r, gm_write_slice find m M buf addr = Val (M', r) /\
+     (r = inl tt <-> all_mappedP (shape M) addr (lenN buf)) /\
+     (forall e, r = inr e -> exists k, is_run (shape M) addr (lenN buf) k /\ k < lenN buf /\
+         (e = EPartialBuffer (lenN buf) k \/ (k = 0 /\ e = EInvalidGuestAddress)))) /\
+  (exists b r, gm_read_slice find m M buf addr = Val (b, r) /\
+     (r = inl tt <-> all_mappedP (shape M) addr (lenN buf)) /\
+     (forall e, r = inr e -> exists k, is_run (shape M) addr (lenN buf) k /\ k < lenN buf /\
+         (e = EPartialBuffer (lenN buf) k \/ (k = 0 /\ e = EInvalidGuestAddress)))).
+Proof. exact slice_forms_lemma. Qed.
+
+(* ... with the same memory effect / delivered bytes as write / read *)
+Theorem C03_write_slice_refines_flat : forall (find : layout -> N -> option nat) (inv : layout -> Prop),
+  (forall L, inv L -> wf_layout_gen L) ->
+  (forall L a, inv L -> a < W64 -> find_ok L a (find L a)) ->
+  forall m M buf addr, inv (shape M) -> lenN buf < W64 -> addr < W64 -> buf <> [] ->
+  exists M' k, gm_write_slice find m M buf addr = Val (M', exact_result (lenN buf) k) /\
+    is_run (shape M) addr (lenN buf) k /\ shape M' = shape M /\
+    forall x, x < W64 -> rd M' x = if in_range addr k x then nth_error buf (N.to_nat (x - addr)) else rd M x.
+Proof. exact gm_write_slice_lemma. Qed.
+
+Theorem C03_read_slice_refines_flat : forall (find : layout -> N -> option nat) (inv : layout -> Prop),
+  (forall L, inv L -> wf_layout_gen L) ->
+  (forall L a, inv L -> a < W64 -> find_ok L a (find L a)) ->
+  forall m M buf0 addr, inv (shape M) -> lenN buf0 < W64 -> addr < W64 -> buf0 <> [] ->
+  exists b k, gm_read_slice find m M buf0 addr = Val (b, exact_result (lenN buf0) k) /\
+    is_run (shape M) addr (lenN buf0) k /\ length b = length buf0 /\
+    forall j, nth_error b j = if N.of_nat j <? k then rd M (addr + N.of_nat j) else nth_error buf0 j.
+Proof. exact gm_read_slice_lemma. Qed.
+
+(* what was written is what is later read back, through every route *)
+Theorem C03_obj_roundtrip : forall (find : layout -> N -> option nat) (inv : layout -> Prop),
+  (forall L, inv L -> wf_layout_gen L) ->
+  (forall L a, inv L -> a < W64 -> find_ok L a (find L a)) ->
+  forall m M val addr M', inv (shape M) -> lenN val < W64 -> addr < W64 -> val <> [] ->
+  gm_write_obj find m M val addr = Val (M', inl tt) ->
+  gm_read_obj find m M' (lenN val) addr = Val (inl val) /\
+  (forall buf0, length buf0 = length val ->
+     gm_read_slice find m M' buf0 addr = Val (val, inl tt) /\
+     gm_read find m M' buf0 addr = Val (val, inl (lenN val))).
+Proof. exact obj_roundtrip_lemma. Qed.
+
+(* atomic store / load: all-or-nothing; succeed exactly when the access lies in one region and is
+   aligned in it (model assumption: region host bases are 8-byte aligned) *)
+Theorem C03_atomic_store : forall (find : layout -> N -> option nat) (inv : layout -> Prop),
+  (forall L, inv L -> wf_layout_gen L) ->
+  (forall L a, inv L -> a < W64 -> find_ok L a (find L a)) ->
+  forall M bytes addr, inv (shape M) -> addr < W64 -> 0 < lenN bytes -> lenN bytes < W64 ->
+  exists M' r, gm_store find M bytes addr = Val (M', r) /\ shape M' = shape M /\
+    (r = inl tt <-> atomic_okP (shape M) addr (lenN bytes)) /\
+    (r = inl tt -> forall x, x < W64 ->
+       rd M' x = if in_range addr (lenN bytes) x then nth_error bytes (N.to_nat (x - addr)) else rd M x) /\
+    (forall e, r = inr e -> M' = M /\ (e = EInvalidGuestAddress <-> ~ Mapped (shape M) addr) /\
+                            (e = EInvalidGuestAddress \/ e = EInvalidBackendAddress)).
+Proof. exact gm_store_lemma. Qed.
+
+Theorem C03_atomic_load : forall (find : layout -> N -> option nat) (inv : layout -> Prop),
+  (forall L, inv L -> wf_layout_gen L) ->
+  (forall L a, inv L -> a < W64 -> find_ok L a (find L a)) ->
+  forall M sz addr, inv (shape M) -> addr < W64 -> 0 < sz -> sz < W64 ->
+  exists r, gm_load find M sz addr = Val r /\
+    ((exists d, r = inl d) <-> atomic_okP (shape M) addr sz) /\
+    (forall d, r = inl d -> length d = N.to_nat sz /\
+       forall j, nth_error d j = if N.of_nat j <? sz then rd M (addr + N.of_nat j) else None) /\
+    (forall e, r = inr e -> (e = EInvalidGuestAddress <-> ~ Mapped (shape M) addr) /\
+                            (e = EInvalidGuestAddress \/ e = EInvalidBackendAddress)).
+Proof. exact gm_load_lemma. Qed.
+
+(* stream transfers with in-memory streams: from a byte slice into guest memory (the run is
+   additionally capped by the source length; the source advances by k) ... *)
+Theorem C03_read_volatile_from_refines_flat : forall (find : layout -> N -> option nat) (inv : layout -> Prop),
+  (forall L, inv L -> wf_layout_gen L) ->
+  (forall L a, inv L -> a < W64 -> find_ok L a (find L a)) ->
+  forall m M addr src count, inv (shape M) -> count < W64 -> addr < W64 -> lenN src < W64 ->
+  exists M' k, gm_read_volatile_from find m M addr src count =
+               Val ((M', skipn (N.to_nat k) src), stream_result find (shape M) addr k) /\
+    is_run (shape M) addr (N.min count (lenN src)) k /\ shape M' = shape M /\
+    forall x, x < W64 -> rd M' x = if in_range addr k x then nth_error src (N.to_nat (x - addr)) else rd M x.
+Proof. exact gm_read_volatile_from_lemma. Qed.
+
+(* ... and from guest memory into a growable sink: the k flat bytes of the run are appended *)
+Theorem C03_write_volatile_to_refines_flat : forall (find : layout -> N -> option nat) (inv : layout -> Prop),
+  (forall L, inv L -> wf_layout_gen L) ->
+  (forall L a, inv L -> a < W64 -> find_ok L a (find L a)) ->
+  forall m M addr dst count, inv (shape M) -> count < W64 -> addr < W64 ->
+  exists d k, gm_write_volatile_to find m M addr dst count = Val (d, stream_result find (shape M) addr k) /\
+    is_run (shape M) addr count k /\
+    d = dst ++ skipn (length dst) d /\ length d = (length dst + N.to_nat k)%nat /\
+    forall j, (j < N.to_nat k)%nat -> nth_error d (length dst + j) = rd M (addr + N.of_nat j).
+Proof. exact gm_write_volatile_to_lemma. Qed.
+
+(* the splitting loop never runs out of fuel and never panics, for any buffer incl. the empty one *)
+Theorem C03_no_fuel : forall (find : layout -> N -> option nat) (inv : layout -> Prop),
+  (forall L, inv L -> wf_layout_gen L) ->
+  (forall L a, inv L -> a < W64 -> find_ok L a (find L a)) ->
+  forall m M buf addr, inv (shape M) -> lenN buf < W64 -> addr < W64 ->
+  (exists v, gm_write find m M buf addr = Val v) /\ (exists v, gm_read find m M buf addr = Val v) /\
+  (exists v, gm_write_slice find m M buf addr = Val v) /\ (exists v, gm_read_slice find m M buf addr = Val v).
+Proof. exact no_fuel_lemma. Qed.
+
+Print Assumptions C03_write_refines_flat.
+Print Assumptions C03_write_frame.
+Print Assumptions C03_read_refines_flat.
+Print Assumptions C03_run_unique.
+Print Assumptions C03_slice_forms_iff.
+Print Assumptions C03_write_slice_refines_flat.
+Print Assumptions C03_read_slice_refines_flat.
+Print Assumptions C03_obj_roundtrip.
+Print Assumptions C03_atomic_store.
+Print Assumptions C03_atomic_load.
+Print Assumptions C03_read_volatile_from_refines_flat.
+Print Assumptions C03_write_volatile_to_refines_flat.
+Print Assumptions C03_no_fuel.
